@@ -54,6 +54,7 @@ pub fn aircraft_actions(tag: &str, a: u32) -> Vec<Action> {
         l("DF16", frames::df16(a, frames::ac13_for_alt(18000), 0x30_0000_0000_0000)),
         l("TC4 EIN45F cat3", frames::df17(5, a, frames::me_ident(4, 3, frames::callsign_codes("EIN45F")))),
         l("TC4 RYR9AB cat5", frames::df17(5, a, frames::me_ident(4, 5, frames::callsign_codes("RYR9AB")))),
+        l("TC4 EIN45F cat5", frames::df17(5, a, frames::me_ident(4, 5, frames::callsign_codes("EIN45F")))),
         l("TC11 even p1", pos_frame(17, a, 11, 36000, P1, false)),
         l("TC11 odd p1", pos_frame(17, a, 11, 36000, P1, true)),
         l("TC11 even p2", pos_frame(17, a, 11, 36025, P2, false)),
